@@ -229,6 +229,12 @@ def agree(module, real, model, mode='f64'):
         band = INEXACT[module][0 if mode == 'f64' else 1]
         if b != 0 and abs(a - b) <= band * abs(b):
             return 'band'
+    if real.startswith('ok:') and model.startswith('ok:') and mode != 'f64':
+        # plain numbers / float32 tensors go through float32 inside the STE helpers: above 2^24 the carrier is no longer
+        # exact (a few ulps of 2^-23 relative); the float64 runs of the same grid stay exact
+        a, b = F(real[3:]), F(model[3:])
+        if abs(b) >= 2 ** 24 and abs(a - b) <= 5e-7 * abs(b):
+            return 'band'
     return None
 
 
@@ -686,7 +692,7 @@ def run(chk):
                 'description (the cost is a number); distinct = distinct (function, description)')
     chk.trusted.append('translator (py2lean.py) and the hand models of Ne16PerfModel / ComputeOxUnrollSTE: validated by the '
                        'differential run against the real functions on this run, not verified')
-    chk.trusted.append('float32/float64 results read as exact rationals; exact below 2^24 / 2^53 (the grids stay below); '
+    chk.trusted.append('float32/float64 results read as exact rationals; exact below 2^24 / 2^53 (float32-carried results above 2^24, rare in the thorough grid, are compared within 5e-7 relative and counted in corr_within_float_band); '
                        'a relative band of 1e-9 (mpic_energy 1e-6) only for the models with non-dyadic constants')
     chk.assumptions.append('key absence in a layer description is modelled only for a_precision; Python KeyError on other '
                            'missing keys is outside the model')
